@@ -11,6 +11,7 @@ import (
 
 	"github.com/bnb-chain/tss-lib/v2/crypto"
 	"github.com/bnb-chain/tss-lib/v2/tss"
+	"github.com/btcsuite/btcutil/base58"
 	v "github.com/bnb-chain/tss-lib/v2/zzverifapi"
 	"golang.org/x/crypto/ripemd160"
 )
@@ -25,9 +26,11 @@ import (
 // fed to them and on how their outputs are sliced.
 
 func verifSerP(X, Y *big.Int) []byte {
+	// ser256(x), left-padded with zero bytes, after the parity byte
 	out := make([]byte, 33)
 	out[0] = 2 + byte(Y.Bit(0))
-	X.FillBytes(out[1:])
+	xb := X.Bytes()
+	copy(out[33-len(xb):], xb)
 	return out
 }
 
@@ -87,10 +90,85 @@ func verifCheckChild(label string, got *ExtendedKey, gotIL *big.Int, index uint3
 	v.Assert(label+"-version-kept", v.EqBytes(got.Version, pk.Version))
 }
 
-// one derivation step, every parent key / chain code / depth / index
-func VerifHarness_C18_derive_child_key() {
+// DeriveChildKeyFromHierarchy over a path of `levels` symbolic indices: the returned offset is
+// the sum of the I_L of every level mod q, the final key is parent + offset*G and equals
+// level-by-level BIP32 derivation; a refusal at any level refuses the whole path.
+// Bound: keys along the path have a full 32-byte x coordinate (the leading-zero cases of
+// the serialisation are covered by the single-step harness).
+func verifC18Hierarchy(levels int) {
+	ec := tss.S256()
+	q := ec.Params().N
+	pk, d := verifParent("par")
+	full := new(big.Int).Lsh(big.NewInt(1), 248)
+	v.Assume("full-length-x", pk.X.Cmp(full) >= 0)
+	v.Assume("depth-leaves-room", int(pk.Depth)+levels <= 255)
+	path := make([]uint32, levels)
+	for i := range path {
+		path[i] = v.NondetUint32(v.Name("index", i))
+	}
+	// reference: level by level
+	cur := pk
+	sum := new(big.Int)
+	refused := false
+	for i := 0; i < levels && !refused; i++ {
+		il, child, cc, fp, ok := verifRefDerive(path[i], cur)
+		if !ok {
+			refused = true
+			break
+		}
+		v.Assume("full-length-x", child.X().Cmp(full) >= 0)
+		sum.Add(sum, il)
+		cur = &ExtendedKey{PublicKey: ecdsa.PublicKey{Curve: ec, X: child.X(), Y: child.Y()}, Depth: cur.Depth + 1,
+			ChildIndex: path[i], ChainCode: cc, ParentFP: fp, Version: cur.Version}
+	}
+	off, got, err := DeriveChildKeyFromHierarchy(path, pk, q, ec)
+	if refused {
+		v.Assert("refused-when-a-level-is-refused", err != nil)
+		v.Reach("refused")
+		return
+	}
+	v.Assert("derives", err == nil)
+	if err != nil {
+		return
+	}
+	v.Assert("offset-is-sum-of-IL-mod-q", v.EqInt(off, sum.Mod(sum, q)))
+	v.Assert("offset-reduced", off.Sign() >= 0 && off.Cmp(q) < 0)
+	// child = parent + offset*G
+	tot := new(big.Int).Add(d, off)
+	want := crypto.ScalarBaseMult(ec, tot.Mod(tot, q))
+	v.Assert("final-key-is-parent-plus-offset*G", v.EqInt(got.X, want.X()) && v.EqInt(got.Y, want.Y()))
+	v.Assert("final-key-equals-level-by-level", v.EqInt(got.X, cur.X) && v.EqInt(got.Y, cur.Y) && v.EqBytes(got.ChainCode, cur.ChainCode) &&
+		got.Depth == cur.Depth && got.ChildIndex == cur.ChildIndex && v.EqBytes(got.ParentFP, cur.ParentFP))
+	v.Reach("end")
+}
+
+// the empty path: offset 0 and the parent key itself
+func VerifHarness_C18_hierarchy_len0() {
 	ec := tss.S256()
 	pk, _ := verifParent("par")
+	off, got, err := DeriveChildKeyFromHierarchy(nil, pk, ec.Params().N, ec)
+	v.Assert("empty-path-derives", err == nil)
+	if err != nil {
+		return
+	}
+	v.Assert("empty-path-offset-zero", off.Sign() == 0)
+	v.Assert("empty-path-returns-parent", got == pk)
+	v.Reach("end")
+}
+func VerifHarness_C18_hierarchy_len1() { verifC18Hierarchy(1) }
+func VerifHarness_C18_hierarchy_len2() { verifC18Hierarchy(2) }
+func VerifHarness_C18_hierarchy_len3() { verifC18Hierarchy(3) }
+
+// one derivation step, every parent key / chain code / depth / index
+func verifC18Derive(shortX bool) {
+	ec := tss.S256()
+	pk, _ := verifParent("par")
+	full := new(big.Int).Lsh(big.NewInt(1), 248)
+	if shortX {
+		v.Assume("x-has-leading-zero-bytes", pk.X.Cmp(full) < 0)
+	} else {
+		v.Assume("full-length-x", pk.X.Cmp(full) >= 0)
+	}
 	index := v.NondetUint32("index")
 	gotIL, got, err := DeriveChildKey(index, pk, ec)
 	il, child, cc, fp, ok := verifRefDerive(index, pk)
@@ -109,5 +187,74 @@ func VerifHarness_C18_derive_child_key() {
 		return
 	}
 	verifCheckChild("step", got, gotIL, index, pk, il, child, cc, fp)
+	v.Reach("end")
+}
+
+// x coordinate of the parent with its full 32 bytes / with 1..32 leading zero bytes (the
+// padding of ser256 in the HMAC input and the fingerprint)
+func VerifHarness_C18_derive_child_key_fullx()  { verifC18Derive(false) }
+func VerifHarness_C18_derive_child_key_shortx() { verifC18Derive(true) }
+
+// Extended key serialisation: payload layout per BIP32
+//   version(4) || depth(1) || parent fingerprint(4) || child number(4, big-endian) || chain code(32) || serP(K)(33)
+// followed by the first 4 bytes of SHA256(SHA256(payload)); base58 is an abstract bijection.
+// NewExtendedKeyFromString(String(k)) returns k.
+func verifC18String(shortX bool) {
+	ec := tss.S256()
+	k, _ := verifParent("k")
+	full := new(big.Int).Lsh(big.NewInt(1), 248)
+	if shortX {
+		v.Assume("x-has-leading-zero-bytes", k.X.Cmp(full) < 0)
+	} else {
+		v.Assume("full-length-x", k.X.Cmp(full) >= 0)
+	}
+	s := k.String()
+	raw := base58.Decode(s)
+	v.Assert("serialised-length-82", len(raw) == 82)
+	if len(raw) != 82 {
+		return
+	}
+	var want []byte
+	want = append(want, k.Version...)
+	want = append(want, k.Depth)
+	want = append(want, k.ParentFP...)
+	want = append(want, byte(k.ChildIndex>>24), byte(k.ChildIndex>>16), byte(k.ChildIndex>>8), byte(k.ChildIndex))
+	want = append(want, k.ChainCode...)
+	want = append(want, verifSerP(k.X, k.Y)...)
+	v.Assert("payload-layout", v.EqBytes(raw[:78], want))
+	h1 := sha256.Sum256(want)
+	h2 := sha256.Sum256(h1[:])
+	v.Assert("checksum-is-double-sha256", v.EqBytes(raw[78:], h2[:4]))
+	k2, err := NewExtendedKeyFromString(s, ec)
+	v.Assert("parses-back", err == nil)
+	if err != nil {
+		return
+	}
+	v.Assert("round-trip", v.EqInt(k2.X, k.X) && v.EqInt(k2.Y, k.Y) && k2.Depth == k.Depth && k2.ChildIndex == k.ChildIndex &&
+		v.EqBytes(k2.ChainCode, k.ChainCode) && v.EqBytes(k2.ParentFP, k.ParentFP) && v.EqBytes(k2.Version, k.Version))
+	v.Reach("end")
+}
+
+func VerifHarness_C18_string_roundtrip_fullx()  { verifC18String(false) }
+func VerifHarness_C18_string_roundtrip_shortx() { verifC18String(true) }
+
+// a corrupted checksum or a wrong length is refused
+func VerifHarness_C18_string_rejects_bad_checksum() {
+	ec := tss.S256()
+	k, _ := verifParent("k")
+	v.Assume("full-length-x", k.X.Cmp(new(big.Int).Lsh(big.NewInt(1), 248)) >= 0)
+	raw := base58.Decode(k.String())
+	if len(raw) != 82 {
+		return
+	}
+	// (a changed payload byte is caught only with probability 1 - 2^-32 by the 4-byte checksum: not claimed)
+	i := v.NondetInt("byte", 78, 81)
+	bad := v.NondetByte("bad")
+	v.Assume("byte-changed", bad != raw[i])
+	raw[i] = bad
+	_, err := NewExtendedKeyFromString(base58.Encode(raw), ec)
+	v.Assert("bad-checksum-refused", err != nil)
+	_, err = NewExtendedKeyFromString(base58.Encode(raw[:81]), ec)
+	v.Assert("short-input-refused", err != nil)
 	v.Reach("end")
 }
